@@ -77,4 +77,68 @@ theorem hermite_solves (ax : Axis α) (i : Nat) (d : Nat → α) (hne : ax.xn i 
   intro l hl
   interval_cases l <;> simp [row1, dot, dotFrom, hermiteC, hm0, hm1] <;> field_simp <;> ring
 
+/-! ### a function affine in each coordinate satisfies every row -/
+
+theorem affine_solves1 (ax : Axis α) (i' : Nat) (a b : α)
+    (h0 : ax.xn (i' + 2) ≠ ax.xn i') (h1 : ax.xn (i' + 3) ≠ ax.xn (i' + 1)) :
+    IsSol1 ax (i' + 1) (fun k => a + b * ax.xn (i' + k)) (fun k => if k = 0 then a else if k = 1 then b else 0) := by
+  have e0 : ax.xn (i' + 2) - ax.xn i' ≠ 0 := sub_ne_zero.mpr h0
+  have e1 : ax.xn (i' + 3) - ax.xn (i' + 1) ≠ 0 := sub_ne_zero.mpr h1
+  intro l hl
+  interval_cases l <;> simp [row1, dot, dotFrom, Nat.add_assoc] <;> field_simp <;> ring
+
+def ml2 (m : Nat → Nat → α) (x y : α) : α := m 0 0 + m 0 1 * y + m 1 0 * x + m 1 1 * x * y
+def embed2 (m : Nat → Nat → α) (n : Nat) : α := if n / 4 < 2 ∧ n % 4 < 2 then m (n / 4) (n % 4) else 0
+
+theorem multilinear_solves2 (ax ay : Axis α) (i' j' : Nat) (m : Nat → Nat → α)
+    (hx0 : ax.xn (i' + 2) ≠ ax.xn i') (hx1 : ax.xn (i' + 3) ≠ ax.xn (i' + 1))
+    (hy0 : ay.xn (j' + 2) ≠ ay.xn j') (hy1 : ay.xn (j' + 3) ≠ ay.xn (j' + 1)) :
+    IsSol2 ax ay (i' + 1, j' + 1) (fun a b => ml2 m (ax.xn (i' + a)) (ay.xn (j' + b))) (embed2 m) := by
+  have e0 : ax.xn (i' + 2) - ax.xn i' ≠ 0 := sub_ne_zero.mpr hx0
+  have e1 : ax.xn (i' + 3) - ax.xn (i' + 1) ≠ 0 := sub_ne_zero.mpr hx1
+  have e2 : ay.xn (j' + 2) - ay.xn j' ≠ 0 := sub_ne_zero.mpr hy0
+  have e3 : ay.xn (j' + 3) - ay.xn (j' + 1) ≠ 0 := sub_ne_zero.mpr hy1
+  intro l hl
+  interval_cases l <;> simp [row2, dot, dotFrom, Nat.add_assoc, embed2, ml2] <;> field_simp <;> ring
+
+/-! ### the right-hand side is affine in the data: value normalisation commutes with solving -/
+
+/-- unit constant polynomial -/
+def e0 (n : Nat) : α := if n = 0 then 1 else 0
+
+theorem norm_solves1 (ax : Axis α) (i : Nat) (d c : Nat → α) (dmin s : α) (h : IsSol1 ax i d c) :
+    IsSol1 ax i (fun k => (d k - dmin) * s) (fun n => s * c n + (-(dmin * s)) * e0 n) := by
+  intro l hl
+  have := h l hl
+  rw [dot_lin]
+  interval_cases l <;> simp [row1, dot, dotFrom, e0] at this ⊢ <;> linear_combination s * this
+
+theorem row2_fst (ax ay : Axis α) (cell : Nat × Nat) (D D' : Nat → Nat → α) (l : Nat) :
+    (row2 ax ay cell D l).1 = (row2 ax ay cell D' l).1 := by
+  unfold row2; simp only []; split_ifs <;> rfl
+
+theorem row3_fst (ax ay az : Axis α) (cell : Nat × Nat × Nat) (D D' : Nat → Nat → Nat → α) (l : Nat) :
+    (row3 ax ay az cell D l).1 = (row3 ax ay az cell D' l).1 := by
+  unfold row3; simp only []; split_ifs <;> rfl
+
+theorem norm_solves2 (ax ay : Axis α) (cell : Nat × Nat) (D : Nat → Nat → α) (c : Nat → α) (dmin s : α)
+    (h : IsSol2 ax ay cell D c) :
+    IsSol2 ax ay cell (fun a b => (D a b - dmin) * s) (fun n => s * c n + (-(dmin * s)) * e0 n) := by
+  intro l hl
+  have := h l hl
+  rw [dot_lin, row2_fst ax ay cell _ D, this]
+  have hk : l % 4 < 4 := Nat.mod_lt _ (by norm_num)
+  generalize hkk : l % 4 = kind at hk
+  interval_cases kind <;> simp [row2, hkk, dot, dotFrom, e0] <;> ring
+
+theorem norm_solves3 (ax ay az : Axis α) (cell : Nat × Nat × Nat) (D : Nat → Nat → Nat → α) (c : Nat → α) (dmin s : α)
+    (h : IsSol3 ax ay az cell D c) :
+    IsSol3 ax ay az cell (fun a b k => (D a b k - dmin) * s) (fun n => s * c n + (-(dmin * s)) * e0 n) := by
+  intro l hl
+  have := h l hl
+  rw [dot_lin, row3_fst ax ay az cell _ D, this]
+  have hk : l % 8 < 8 := Nat.mod_lt _ (by norm_num)
+  generalize hkk : l % 8 = kind at hk
+  interval_cases kind <;> simp [row3, hkk, dot_constraints3d, sum4, comps, e0] <;> ring
+
 end Cherab.Caching
